@@ -125,6 +125,7 @@ func (x *Explorer) call(st *State, site ssa.CallInstruction, cc *ssa.CallCommon,
 					f.Tags |= TFresh
 				}
 				x.accessOfLoadedContainer(st, site, cc.Args[0], false)
+				x.L.Event(x, st, &Event{Kind: EvAliasWrite, Instr: site, Tags: f0.Tags})
 			}
 			x.defineResult(st, site, deferred, f)
 		case "delete":
